@@ -1,0 +1,15 @@
+//go:build !verif
+// +build !verif
+
+// Package verifhook provides schedule/observation points for the verification
+// harness. Without the `verif` build tag every call is an inlined no-op.
+package verifhook
+
+// Enabled reports whether hooks are compiled in.
+const Enabled = false
+
+// Set is a no-op without the verif tag.
+func Set(h func(point string, id uint32)) {}
+
+// Point is a no-op without the verif tag.
+func Point(point string, id uint32) {}
